@@ -177,6 +177,11 @@ def skipSpace (b : Buf) : Buf := b.dropWhile isSpaceTok
 def isLangK (t : Tok) : Bool := match t.kind with | .lang .. => true | _ => false
 /-- `skip_space(stop_lang=True)`: a language token ends the space behind a macro name -/
 def skipSpaceStopLang (b : Buf) : Buf := b.dropWhile (fun t => isSpaceTok t && !isLangK t)
+/-- `skip_space(stop_lang=True, stop_action=True)` (`expand_macro`): an action token marks the
+    place of something that has vanished (the closing brace of an argument, …); it also ends the
+    space behind a macro name and is not skipped itself -/
+def skipSpaceStopLangAct (b : Buf) : Buf :=
+  b.dropWhile (fun t => isSpaceTok t && !isLangK t && !(t.kind == .action))
 /-- the language tokens `skip_space(langs)` passes over -/
 def skippedLangs (b : Buf) : List Tok := (b.takeWhile isSpaceTok).filter isLangK
 def lookAhead (b : Buf) : Option Tok := (skipSpace b).head?
